@@ -115,13 +115,13 @@ HISTORY_POOL = {
         'globally: no a', '# id: p1 globally: some b {x > 1} within 100 ms', '# id: p2 # title: "t" after a as A: b {x = @A.x} causes c', 'globally: no a {',
         'globally: no a {x and 1}', 'globally: no a {@Z.x > 1}', 'globally: no a {foo(x) > 1}', '# id: d # id: d globally: no a', '# title: "only title" until e: b requires c',
         'globally: no (a or a)', '# id: q', '', 'globally: no a {forall i in xs: p}', 'after a until b: (c or d as D) forbids e within 2 s',
-        '# title: "a" # title: "b" globally: no a', 'globally: no a {x = 1.0} within 1.0 s', 'globally: no a {x = 1} within 1 s', 'globally: no a {x = 1e0 and y = 10}', 'globally: no a {y = 1e1}',
+        '# title: "a" # title: "b" globally: no a', 'after a as M: no b {exists i in xs: @i > @M.y}', 'globally: no b {x > 0}', 'globally: no a {x = 1.0} within 1.0 s', 'globally: no a {x = 1} within 1 s', 'globally: no a {x = 1e0 and y = 10}', 'globally: no a {y = 1e1}',
     ],
     'spec': [
         'globally: no a', '# id: p1 globally: some b # id: p2 globally: no c', '# id: p1 globally: some b globally: no c', 'globally: no a {', '# id: d # id: d globally: no a',
         'globally: no a {x and 1}', '# id: z globally: no a {@Z.x > 1}', '', '# id: q', '# title: "t" globally: no a # description: "d" globally: no b',
         'globally: no a {foo(x) > 1}', '# id: last globally: no a # id: dangling', 'until e: b requires c within 1 s', 'globally: no (a or a)',
-        '# description: "a" # description: "a" globally: no a', 'globally: no a {x = 1.0}', 'globally: no a {x = 1}', 'globally: no a {x = 10} globally: no b {x = 1e1}',
+        '# description: "a" # description: "a" globally: no a', 'after a as M: no b {exists i in xs: @i > @M.y} globally: no b {x > 0}', 'globally: no a {x = 1.0}', 'globally: no a {x = 1}', 'globally: no a {x = 10} globally: no b {x = 1e1}',
     ],
     'pred': ['{x = 1.0}', '{x = 1}', '{x = 1e0 or y = 2.50}', '{y = 2.5}', '{x > 1}', '{x', '{x and 1}', '{foo(x) > 1}', '{True}', '{forall i in xs: p}', '{p}', '{x > 1} }', '', '{@A.x = x}', '{not False}', '{x in {1,2}}', '{1 +}', '{len(xs) > 0}'],
     'expr': ['x = 1.0', 'x = 1', 'x = 1e0 or y = 2.50', 'y = 2.5', 'x > 1', 'x >', 'x and 1', 'foo(x)', 'True', 'forall i in xs: p', 'p', ')', '', '@A.x = x', 'not False', 'x in {1,2}', '1 +', 'len(xs)'],
